@@ -247,7 +247,7 @@ fn scenario(rng: &mut StdRng, sc: usize, real_out: &mut dyn Write, kv: &HashMap<
     let main_len = rng.gen_range(6..=arg_u64(kv, "maxlen", 16) as usize);
     let interval = 4u64;
     let built = super::filtersync::build_tx_world(rng, "dummy", main_len, 0, 1, arg_u64(kv, "maxtxs", 4) as usize);
-    let cfg = Config { last_n: 3, max_outbound: 1, interval, blocks_in_transit: 4 };
+    let cfg = Config { last_n: 3, max_outbound: 1, interval, blocks_in_transit: 4, ..Default::default() };
     let leaf = built.leaves[0];
     let name = format!("query-{}", sc);
     let mut sim: Sim = new_sim(built.chain, cfg, 1, Box::new(std::io::sink()), &name, vec!["peersync", "filter"]);
